@@ -19,6 +19,7 @@ IN = "commonroad/scenario/intersection.py"
 TS = "commonroad/scenario/traffic_sign.py"
 TL = "commonroad/scenario/traffic_light.py"
 GHOST = 99  # an id that exists nowhere
+GHOST2 = 98  # another one (two dangling ids next to each other in one list: an in-place clean-up must not skip the second)
 
 
 def geometry(label):
@@ -30,7 +31,7 @@ def geometry(label):
 class World:
     def __init__(self, repo, ghosts=True):
         self.repo = repo
-        G = [GHOST] if ghosts else []
+        G = [GHOST, GHOST2] if ghosts else []
         ev = self.ev = Ev(repo)
         ev.pure_modules = {"shapely", "np", "numpy", "math"}
         ev.instantiate = {"LaneletNetwork"}
